@@ -20,4 +20,6 @@ def run(ck):
     conv.dtype_comparisons(ck, "C17.R5")
     conv.getitem_keeps_map(ck, "C17.R6")
     conv.sizes_use_transformed_value(ck, "C17.R7")
+    from . import ops
+    ops.conversions(ck, "C16.R2")       # every read route (float()/int()/complex()) goes through astype, where the read map lives
     pipeline.store_pipeline(ck, "C01.R2", want_bounds=False)
